@@ -667,6 +667,11 @@ class Impl:
         if name == 'set_trig':
             a._bdd._verif_trig = args[0]
             return None
+        if name == 'set_max_nodes':
+            # the node limit of the wrapped manager: attribute assignment, as on a
+            # `dd.bdd.BDD` (`None` stands for the default)
+            a._bdd.max_nodes = sys.maxsize if args[0] is None else args[0]
+            return None
         if name == 'copy':
             src, u = args
             srcm = 'a%d' % src
